@@ -75,8 +75,9 @@ Record sender_inv (g : sender_ghost) (k : kcp) : Prop := mkSI {
       stream_bytes (sg_numbered g) ++ concat (map s_data (snd_queue k)) = concat (sg_accepted g);
   (* message mode: the accepted buffers are the messages numbered or queued, boundaries kept *)
   SI_message : stream k = 0 ->
-      messages (sg_numbered g ++ map pay (snd_queue k)) = sg_accepted g /\
-      at_boundary (sg_numbered g ++ map pay (snd_queue k))
+      messages (sg_numbered g ++ map pay (snd_queue k)) = sg_accepted g;
+  (* every Send queues whole messages: the list always ends at a message boundary *)
+  SI_boundary : at_boundary (sg_numbered g ++ map pay (snd_queue k))
 }.
 
 (* ghost effect of a call on the sender: Send records the accepted buffer; any call that
